@@ -145,30 +145,32 @@ Proof. intros H; injection H; auto. Qed.
 Ltac inv_some S := first [discriminate S | (apply some_inj in S; match type of S with _ = ?x => subst x end)].
 
 Section WithOracle.
-Context (runnable : file -> bool).
+Context (runnable : file -> bool) (fails : verb -> list event -> bool).
 
-Lemma wfs_call v w : wfs (Setup.call v w) = wfs w.
-Proof. destruct v; reflexivity. Qed.
-Lemma wlog_call v w : wlog (Setup.call v w) = wlog w ++ [ECall v].
-Proof. destruct v; reflexivity. Qed.
-Lemma wtool_call v w : wtool (Setup.call v w) = wtool w.
-Proof. destruct v; reflexivity. Qed.
+Lemma wfs_call v w : wfs (Setup.call fails v w) = wfs w.
+Proof. unfold Setup.call. destruct (fails v (wlog w)); destruct v; reflexivity. Qed.
+Lemma wlog_call v w : wlog (Setup.call fails v w) = wlog w ++ [ECall v].
+Proof. unfold Setup.call. destruct (fails v (wlog w)); destruct v; reflexivity. Qed.
+Lemma wtool_call v w : wtool (Setup.call fails v w) = wtool w.
+Proof. unfold Setup.call. destruct (fails v (wlog w)); destruct v; reflexivity. Qed.
 Lemma wrunning_call v w :
-  wrunning (Setup.call v w) =
+  wrunning (Setup.call fails v w) =
+  if fails v (wlog w) then wrunning w else
   match v with
   | VStop => false
   | VStart => if fs_has SysUnit (wfs w) then true else wrunning w
   | _ => wrunning w
   end.
-Proof. destruct v; reflexivity. Qed.
+Proof. unfold Setup.call. destruct (fails v (wlog w)); destruct v; reflexivity. Qed.
 Lemma wenabled_call v w :
-  wenabled (Setup.call v w) =
+  wenabled (Setup.call fails v w) =
+  if fails v (wlog w) then wenabled w else
   match v with
   | VDisable => false
   | VEnable => if fs_has SysUnit (wfs w) then true else wenabled w
   | _ => wenabled w
   end.
-Proof. destruct v; reflexivity. Qed.
+Proof. unfold Setup.call. destruct (fails v (wlog w)); destruct v; reflexivity. Qed.
 
 Lemma get_copy l s d w :
   fs_get l (wfs (copy s d w)) =
@@ -241,7 +243,7 @@ Definition op_touches (P : loc -> bool) (cb : bool) (o : op) : bool :=
 
 Lemma step_op_untouched P cb o w w' l :
   (cb = true -> forall x, in_backup x = true -> P x = true) ->
-  op_touches P cb o = true -> step_op runnable o w = Some w' -> P l = false ->
+  op_touches P cb o = true -> step_op runnable fails o w = Some w' -> P l = false ->
   fs_get l (wfs w') = fs_get l (wfs w).
 Proof.
   intros HC T S Pl. destruct o; cbn [step_op op_touches] in *.
@@ -262,17 +264,17 @@ Qed.
 Lemma run_ops_untouched P cb ops w l :
   (cb = true -> forall x, in_backup x = true -> P x = true) ->
   forallb (op_touches P cb) ops = true -> P l = false ->
-  fs_get l (wfs (run_ops runnable ops w)) = fs_get l (wfs w).
+  fs_get l (wfs (run_ops runnable fails ops w)) = fs_get l (wfs w).
 Proof.
   intros HC. revert w. induction ops as [|o t IH]; intros w T Pl; [reflexivity|].
   cbn [forallb] in T. apply andb_true_iff in T. destruct T as [T1 T2].
-  cbn [run_ops]. destruct (step_op runnable o w) as [w'|] eqn:S; [|reflexivity].
+  cbn [run_ops]. destruct (step_op runnable fails o w) as [w'|] eqn:S; [|reflexivity].
   rewrite (IH w' T2 Pl). exact (step_op_untouched P cb o w w' l HC T1 S Pl).
 Qed.
 
 (* the log only grows *)
 Lemma step_op_log o w w' :
-  step_op runnable o w = Some w' -> exists es, wlog w' = wlog w ++ es.
+  step_op runnable fails o w = Some w' -> exists es, wlog w' = wlog w ++ es.
 Proof.
   intros S. destruct o; cbn [step_op] in S.
   - inv_some S. eexists. apply wlog_call.
@@ -286,11 +288,11 @@ Proof.
   - inv_some S. exists [ERemoveBackupDir]. reflexivity.
 Qed.
 
-Lemma run_ops_log ops w : exists es, wlog (run_ops runnable ops w) = wlog w ++ es.
+Lemma run_ops_log ops w : exists es, wlog (run_ops runnable fails ops w) = wlog w ++ es.
 Proof.
   revert w; induction ops as [|o t IH]; intros w; cbn [run_ops].
   - exists []. rewrite app_nil_r. reflexivity.
-  - destruct (step_op runnable o w) as [w'|] eqn:S.
+  - destruct (step_op runnable fails o w) as [w'|] eqn:S.
     + destruct (step_op_log o w w' S) as [e1 E1]. destruct (IH w') as [e2 E2].
       exists (e1 ++ e2). rewrite E2, E1, app_assoc. reflexivity.
     + exists []. rewrite app_nil_r. reflexivity.
@@ -311,7 +313,7 @@ Fixpoint ops_safe (r : bool) (ops : list op) : bool :=
 Lemma run_ops_safe ops : forall w r0,
   log_safe r0 (wlog w) = true ->
   ops_safe (log_state r0 (wlog w)) ops = true ->
-  log_safe r0 (wlog (run_ops runnable ops w)) = true.
+  log_safe r0 (wlog (run_ops runnable fails ops w)) = true.
 Proof.
   induction ops as [|o t IH]; intros w r0 S O; [exact S|].
   cbn [run_ops]. destruct o; cbn [step_op].
@@ -359,7 +361,7 @@ Proof.
 Qed.
 
 Lemma exec_safe c w r0 :
-  log_safe r0 (wlog w) = true -> log_safe r0 (wlog (exec runnable c w)) = true.
+  log_safe r0 (wlog w) = true -> log_safe r0 (wlog (exec runnable fails c w)) = true.
 Proof.
   intros S. unfold exec. apply run_ops_safe.
   - rewrite wlog_banner. exact S.
@@ -367,22 +369,22 @@ Proof.
     apply script_safe.
 Qed.
 
-Lemma step_events_safe c w r : log_safe r (step_events runnable c w) = true.
+Lemma step_events_safe c w r : log_safe r (step_events runnable fails c w) = true.
 Proof. unfold step_events. apply exec_safe. reflexivity. Qed.
 
 Lemma run_safe cmds : forall w r0,
-  log_safe r0 (wlog w) = true -> log_safe r0 (wlog (run runnable cmds w)) = true.
+  log_safe r0 (wlog w) = true -> log_safe r0 (wlog (run runnable fails cmds w)) = true.
 Proof.
   unfold run. induction cmds as [|c t IH]; intros w r0 S; [exact S|].
   cbn [fold_left]. apply IH. apply exec_safe. exact S.
 Qed.
 
-Lemma history_events_safe cmds w r : log_safe r (history_events runnable cmds w) = true.
+Lemma history_events_safe cmds w r : log_safe r (history_events runnable fails cmds w) = true.
 Proof. unfold history_events. apply run_safe. reflexivity. Qed.
 
 (* every file mutation in the log targets an allowed location *)
 Lemma step_op_events_allowed o w w' :
-  step_op runnable o w = Some w' -> forallb event_allowed (wlog w) = true ->
+  step_op runnable fails o w = Some w' -> forallb event_allowed (wlog w) = true ->
   op_touches allowed true o = true -> forallb event_allowed (wlog w') = true.
 Proof.
   intros S A T. destruct o; cbn [step_op op_touches] in *.
@@ -398,11 +400,11 @@ Qed.
 
 Lemma run_ops_events_allowed ops : forall w,
   forallb event_allowed (wlog w) = true -> forallb (op_touches allowed true) ops = true ->
-  forallb event_allowed (wlog (run_ops runnable ops w)) = true.
+  forallb event_allowed (wlog (run_ops runnable fails ops w)) = true.
 Proof.
   induction ops as [|o t IH]; intros w A T; [exact A|].
   cbn [forallb] in T. apply andb_true_iff in T. destruct T as [T1 T2].
-  cbn [run_ops]. destruct (step_op runnable o w) as [w'|] eqn:S; [|exact A].
+  cbn [run_ops]. destruct (step_op runnable fails o w) as [w'|] eqn:S; [|exact A].
   apply IH; [|exact T2]. exact (step_op_events_allowed o w w' S A T1).
 Qed.
 
@@ -418,7 +420,7 @@ Proof. intros _ x H. unfold allowed. rewrite H. apply orb_true_r. Qed.
 
 (* FRAME: no command alters a location outside the system paths and the backup folder *)
 Lemma exec_frame c w l :
-  allowed l = false -> fs_get l (wfs (exec runnable c w)) = fs_get l (wfs w).
+  allowed l = false -> fs_get l (wfs (exec runnable fails c w)) = fs_get l (wfs w).
 Proof.
   intros A. unfold exec.
   rewrite (run_ops_untouched allowed true (script c w) (banner c w) l allowed_covers_backup (script_allowed c w) A).
@@ -426,14 +428,14 @@ Proof.
 Qed.
 
 Lemma run_frame cmds : forall w l,
-  allowed l = false -> fs_get l (wfs (run runnable cmds w)) = fs_get l (wfs w).
+  allowed l = false -> fs_get l (wfs (run runnable fails cmds w)) = fs_get l (wfs w).
 Proof.
   unfold run. induction cmds as [|c t IH]; intros w l A; [reflexivity|].
   cbn [fold_left]. rewrite (IH _ l A). apply exec_frame. exact A.
 Qed.
 
 Lemma exec_events_allowed c w :
-  forallb event_allowed (step_events runnable c w) = true.
+  forallb event_allowed (step_events runnable fails c w) = true.
 Proof.
   unfold step_events, exec. apply run_ops_events_allowed.
   - rewrite wlog_banner. reflexivity.
@@ -443,7 +445,7 @@ Qed.
 
 Lemma run_events_allowed cmds : forall w,
   forallb event_allowed (wlog w) = true ->
-  forallb event_allowed (wlog (run runnable cmds w)) = true.
+  forallb event_allowed (wlog (run runnable fails cmds w)) = true.
 Proof.
   unfold run. induction cmds as [|c t IH]; intros w A; [exact A|].
   cbn [fold_left]. apply IH. unfold exec. apply run_ops_events_allowed.
@@ -456,14 +458,14 @@ Lemma no_cover : false = true -> forall x, in_backup x = true -> is_sys x = true
 Proof. discriminate. Qed.
 
 Lemma install_sys_only w l :
-  is_sys l = false -> fs_get l (wfs (exec runnable Install w)) = fs_get l (wfs w).
+  is_sys l = false -> fs_get l (wfs (exec runnable fails Install w)) = fs_get l (wfs w).
 Proof.
   intros A. unfold exec. cbn [script].
   rewrite (run_ops_untouched is_sys false install_ops _ l no_cover eq_refl A). reflexivity.
 Qed.
 
 Lemma uninstall_sys_only m w l :
-  is_sys l = false -> fs_get l (wfs (exec runnable (Uninstall m) w)) = fs_get l (wfs w).
+  is_sys l = false -> fs_get l (wfs (exec runnable fails (Uninstall m) w)) = fs_get l (wfs w).
 Proof.
   intros A. unfold exec. cbn [script].
   assert (T : forallb (op_touches is_sys false) (uninstall_ops m) = true) by (destruct m; reflexivity).
@@ -474,7 +476,7 @@ Lemma backup_cover : true = true -> forall x, in_backup x = true -> in_backup x 
 Proof. auto. Qed.
 
 Lemma backup_backup_only w l :
-  in_backup l = false -> fs_get l (wfs (exec runnable Backup w)) = fs_get l (wfs w).
+  in_backup l = false -> fs_get l (wfs (exec runnable fails Backup w)) = fs_get l (wfs w).
 Proof.
   intros A. unfold exec. cbn [script].
   rewrite (run_ops_untouched in_backup true backup_ops _ l backup_cover eq_refl A). reflexivity.
@@ -490,7 +492,7 @@ Ltac fsn :=
 
 (* BACKUP: each present system file is copied to its backup location; nothing else changes *)
 Lemma backup_get w l :
-  fs_get l (wfs (exec runnable Backup w)) =
+  fs_get l (wfs (exec runnable fails Backup w)) =
   match l with
   | BakCfg => match fs_get SysCfg (wfs w) with Some f => Some f | None => fs_get BakCfg (wfs w) end
   | BakEbpf => match fs_get SysEbpf (wfs w) with Some f => Some f | None => fs_get BakEbpf (wfs w) end
@@ -506,8 +508,8 @@ Proof.
 Qed.
 
 Lemma backup_service w :
-  wrunning (exec runnable Backup w) = wrunning w /\ wenabled (exec runnable Backup w) = wenabled w /\
-  forallb (fun e => match e with ECall _ => false | _ => true end) (step_events runnable Backup w) = true.
+  wrunning (exec runnable fails Backup w) = wrunning w /\ wenabled (exec runnable fails Backup w) = wenabled w /\
+  forallb (fun e => match e with ECall _ => false | _ => true end) (step_events runnable fails Backup w) = true.
 Proof.
   unfold step_events, exec. cbn [script backup_ops run_ops step_op]. fsn.
   repeat split; try reflexivity.
@@ -517,11 +519,11 @@ Qed.
 
 (* RESTORE without a backup is the identity, the tool's own log aside *)
 Lemma restore_without_backup d w :
-  backup_exists w = false -> exec runnable (Restore d) w = log_tool (Restore d) w.
+  backup_exists w = false -> exec runnable fails (Restore d) w = log_tool (Restore d) w.
 Proof. intros H. unfold exec. cbn [script]. rewrite H. reflexivity. Qed.
 
 Lemma restore_without_backup_rc d w :
-  backup_exists w = false -> exit_code runnable (Restore d) w = 0.
+  backup_exists w = false -> exit_code runnable fails (Restore d) w = 0.
 Proof. intros H. unfold exit_code. cbn [script]. rewrite H. reflexivity. Qed.
 
 (* RESTORE with a complete backup whose agent runs: the four system files are the backed-up
@@ -530,10 +532,11 @@ Lemma restore_complete d w e c b u :
   fs_get BakExe (wfs w) = Some e -> fs_get BakCfg (wfs w) = Some c ->
   fs_get BakEbpf (wfs w) = Some b -> fs_get BakUnit (wfs w) = Some u ->
   runnable e = true ->
-  let w' := exec runnable (Restore d) w in
+  let w' := exec runnable fails (Restore d) w in
   fs_get SysExe (wfs w') = Some e /\ fs_get SysCfg (wfs w') = Some c /\
   fs_get SysEbpf (wfs w') = Some b /\ fs_get SysUnit (wfs w') = Some u /\
-  wrunning w' = true /\ wenabled w' = true /\ exit_code runnable (Restore d) w = 0.
+  exit_code runnable fails (Restore d) w = 0 /\
+  ((forall v l, fails v l = false) -> wrunning w' = true /\ wenabled w' = true).
 Proof.
   intros He Hc Hb Hu Hr w'. subst w'. unfold exit_code, exec. cbn [script].
   unfold backup_exists, fs_has. rewrite He.
@@ -543,7 +546,8 @@ Proof.
   cbn [run_ops rc_ops step_op].
   destruct d; cbn [app run_ops rc_ops step_op]; unfold remove_backup_dir; cbn [wrunning wenabled wfs emit set_fs];
     rewrite ?fs_get_del_where; unfold fs_has; fsn; rewrite ?He, ?Hc, ?Hb, ?Hu; cbn [loc_eqb in_backup];
-    rewrite ?He, ?Hc, ?Hb, ?Hu; repeat split; reflexivity.
+    rewrite ?He, ?Hc, ?Hb, ?Hu;
+    (refine (conj _ (conj _ (conj _ (conj _ (conj _ _))))); try reflexivity; intros Hnf; rewrite ?Hnf; split; reflexivity).
 Qed.
 
 (* INSTALL with a complete package: exactly the packaged files, service enabled and running *)
@@ -551,17 +555,19 @@ Lemma install_complete w e c b u :
   fs_get PkgExe (wfs w) = Some e -> fs_get PkgCfg (wfs w) = Some c ->
   fs_get PkgEbpf (wfs w) = Some b -> fs_get PkgUnit (wfs w) = Some u ->
   runnable e = true ->
-  let w' := exec runnable Install w in
+  let w' := exec runnable fails Install w in
   fs_get SysExe (wfs w') = Some e /\ fs_get SysCfg (wfs w') = Some c /\
   fs_get SysEbpf (wfs w') = Some b /\ fs_get SysUnit (wfs w') = Some u /\
-  wrunning w' = true /\ wenabled w' = true /\ exit_code runnable Install w = 0.
+  exit_code runnable fails Install w = 0 /\
+  ((forall v l, fails v l = false) -> wrunning w' = true /\ wenabled w' = true).
 Proof.
   intros He Hc Hb Hu Hr w'. subst w'. unfold exit_code, exec. cbn [script].
   unfold install_ops, copy_files_ops, setup_service_ops. cbn [app].
   cbn [run_ops rc_ops step_op]. unfold version_ok. fsn. rewrite He, Hr.
   cbn [run_ops rc_ops step_op]. unfold fs_has. fsn. rewrite He, Hc, Hb, Hu. cbn [loc_eqb].
   cbn [run_ops rc_ops step_op]. unfold fs_has. fsn. rewrite ?He, ?Hc, ?Hb, ?Hu. cbn [loc_eqb].
-  rewrite ?He, ?Hc, ?Hb, ?Hu. repeat split; reflexivity.
+  rewrite ?He, ?Hc, ?Hb, ?Hu.
+  refine (conj _ (conj _ (conj _ (conj _ (conj _ _))))); try reflexivity. intros Hnf. rewrite ?Hnf. split; reflexivity.
 Qed.
 
 (* the exact call / write log of a complete install and of a complete restore *)
@@ -569,7 +575,7 @@ Lemma install_complete_log w e c b u :
   fs_get PkgExe (wfs w) = Some e -> fs_get PkgCfg (wfs w) = Some c ->
   fs_get PkgEbpf (wfs w) = Some b -> fs_get PkgUnit (wfs w) = Some u ->
   runnable e = true ->
-  step_events runnable Install w =
+  step_events runnable fails Install w =
   [ECall VStop; EWrite SysExe; EWrite SysCfg; EWrite SysEbpf; EWrite SysUnit;
    ECall VUnmask; ECall VDaemonReload; ECall VEnable; ECall VStart].
 Proof.
@@ -579,14 +585,15 @@ Proof.
   cbn [run_ops step_op]. unfold fs_has. fsn. cbn [clear_log wfs]. rewrite He, Hc, Hb, Hu. cbn [loc_eqb].
   cbn [run_ops step_op].
   rewrite !wlog_call, !wlog_copy. unfold fs_has. fsn. cbn [clear_log wfs banner log_tool wlog].
-  rewrite ?He, ?Hc, ?Hb, ?Hu. cbn [loc_eqb]. rewrite ?He, ?Hc, ?Hb, ?Hu. reflexivity.
+  rewrite ?He, ?Hc, ?Hb, ?Hu. cbn [loc_eqb]. rewrite ?He, ?Hc, ?Hb, ?Hu.
+  rewrite ?wlog_call. cbn [clear_log log_tool wlog app]. reflexivity.
 Qed.
 
 Lemma restore_complete_log d w e c b u :
   fs_get BakExe (wfs w) = Some e -> fs_get BakCfg (wfs w) = Some c ->
   fs_get BakEbpf (wfs w) = Some b -> fs_get BakUnit (wfs w) = Some u ->
   runnable e = true ->
-  step_events runnable (Restore d) w =
+  step_events runnable fails (Restore d) w =
   [ECall VStop; EWrite SysExe; EWrite SysCfg; EWrite SysEbpf; EWrite SysUnit;
    ECall VUnmask; ECall VDaemonReload; ECall VEnable; ECall VStart]
   ++ (if d then [ERemoveBackupDir] else []).
@@ -599,12 +606,13 @@ Proof.
   cbn [run_ops step_op].
   destruct d; cbn [app run_ops step_op remove_backup_dir emit set_fs wlog];
   rewrite !wlog_call, !wlog_copy; unfold fs_has; fsn; cbn [clear_log wfs banner log_tool wlog];
-  rewrite ?He, ?Hc, ?Hb, ?Hu; cbn [loc_eqb]; rewrite ?He, ?Hc, ?Hb, ?Hu; reflexivity.
+  rewrite ?He, ?Hc, ?Hb, ?Hu; cbn [loc_eqb]; rewrite ?He, ?Hc, ?Hb, ?Hu;
+  rewrite ?wlog_call; cbn [clear_log log_tool wlog app]; reflexivity.
 Qed.
 
 (* UNINSTALL *)
 Lemma uninstall_get m w l :
-  fs_get l (wfs (exec runnable (Uninstall m) w)) =
+  fs_get l (wfs (exec runnable fails (Uninstall m) w)) =
   match m, l with
   | _, SysUnit => None
   | UPackage, (SysExe | SysCfg | SysEbpf) => None
@@ -612,7 +620,7 @@ Lemma uninstall_get m w l :
   end.
 Proof.
   unfold exec. cbn [script uninstall_ops app run_ops step_op].
-  destruct (fs_has SysUnit (wfs (Setup.call VDisable (Setup.call VStop (banner (Uninstall m) w))))) eqn:H;
+  destruct (fs_has SysUnit (wfs (Setup.call fails VDisable (Setup.call fails VStop (banner (Uninstall m) w))))) eqn:H;
     unfold fs_has in H; revert H; fsn; intros H.
   - destruct m; cbn [app run_ops step_op]; fsn; destruct l; cbn [loc_eqb]; reflexivity.
   - destruct (fs_get SysUnit (wfs w)) eqn:U; [discriminate|].
@@ -620,22 +628,24 @@ Proof.
 Qed.
 
 Lemma uninstall_service_state m w :
-  wrunning (exec runnable (Uninstall m) w) = false /\ wenabled (exec runnable (Uninstall m) w) = false /\
-  exit_code runnable (Uninstall m) w = 0.
+  exit_code runnable fails (Uninstall m) w = 0 /\
+  ((forall v l, fails v l = false) ->
+   wrunning (exec runnable fails (Uninstall m) w) = false /\ wenabled (exec runnable fails (Uninstall m) w) = false).
 Proof.
   unfold exit_code, exec. cbn [script uninstall_ops app run_ops rc_ops step_op].
-  destruct (fs_has SysUnit (wfs (Setup.call VDisable (Setup.call VStop (banner (Uninstall m) w)))));
-    destruct m; cbn [app run_ops rc_ops step_op]; fsn; repeat split; reflexivity.
+  destruct (fs_has SysUnit (wfs (Setup.call fails VDisable (Setup.call fails VStop (banner (Uninstall m) w)))));
+    destruct m; cbn [app run_ops rc_ops step_op]; fsn;
+    (split; [reflexivity|intros Hnf; rewrite ?Hnf; split; reflexivity]).
 Qed.
 
 (* PURGE *)
 Lemma purge_get w l :
-  fs_get l (wfs (exec runnable Purge w)) = if in_backup l then None else fs_get l (wfs w).
+  fs_get l (wfs (exec runnable fails Purge w)) = if in_backup l then None else fs_get l (wfs w).
 Proof. unfold exec. cbn [script run_ops step_op]. fsn. reflexivity. Qed.
 
 Lemma purge_rest w :
-  wrunning (exec runnable Purge w) = wrunning w /\ wenabled (exec runnable Purge w) = wenabled w /\
-  step_events runnable Purge w = [ERemoveBackupDir] /\ exit_code runnable Purge w = 0.
+  wrunning (exec runnable fails Purge w) = wrunning w /\ wenabled (exec runnable fails Purge w) = wenabled w /\
+  step_events runnable fails Purge w = [ERemoveBackupDir] /\ exit_code runnable fails Purge w = 0.
 Proof. repeat split; reflexivity. Qed.
 
 (* ------------------------------------------------------------------------------------ *)
@@ -656,29 +666,29 @@ Qed.
 
 Lemma reversible d w :
   installed runnable w = true ->
-  let w' := exec runnable (Restore d) (exec runnable Install (exec runnable Backup w)) in
+  let w' := exec runnable fails (Restore d) (exec runnable fails Install (exec runnable fails Backup w)) in
   (forall l, In l sys_locs -> fs_get l (wfs w') = fs_get l (wfs w)) /\
-  wrunning w' = true /\ wenabled w' = true.
+  ((forall v l, fails v l = false) -> wrunning w' = true /\ wenabled w' = true).
 Proof.
   intros I w'. destruct (installed_inv w I) as [e [c [b [u [He [Hc [Hb [Hu Hr]]]]]]]].
-  set (w1 := exec runnable Backup w) in *.
-  set (w2 := exec runnable Install w1) in *.
+  set (w1 := exec runnable fails Backup w) in *.
+  set (w2 := exec runnable fails Install w1) in *.
   assert (HB : fs_get BakExe (wfs w2) = Some e /\ fs_get BakCfg (wfs w2) = Some c /\
               fs_get BakEbpf (wfs w2) = Some b /\ fs_get BakUnit (wfs w2) = Some u).
   { subst w2 w1. rewrite !install_sys_only by reflexivity. rewrite !backup_get.
     rewrite He, Hc, Hb, Hu. repeat split; reflexivity. }
   destruct HB as [Be [Bc [Bb Bu]]].
-  destruct (restore_complete d w2 e c b u Be Bc Bb Bu Hr) as [R1 [R2 [R3 [R4 [R5 [R6 _]]]]]].
-  fold w' in R1, R2, R3, R4, R5, R6.
-  split; [|split; assumption].
+  destruct (restore_complete d w2 e c b u Be Bc Bb Bu Hr) as [R1 [R2 [R3 [R4 [_ R5]]]]].
+  fold w' in R1, R2, R3, R4, R5.
+  split; [|exact R5].
   intros l [<-|[<-|[<-|[<-|[]]]]]; congruence.
 Qed.
 
 Lemma reversible_outside_known_class d w :
   four_present w = true -> KnownClass_C17_agent_not_runnable runnable w = false ->
-  let w' := exec runnable (Restore d) (exec runnable Install (exec runnable Backup w)) in
+  let w' := exec runnable fails (Restore d) (exec runnable fails Install (exec runnable fails Backup w)) in
   (forall l, In l sys_locs -> fs_get l (wfs w') = fs_get l (wfs w)) /\
-  wrunning w' = true /\ wenabled w' = true.
+  ((forall v l, fails v l = false) -> wrunning w' = true /\ wenabled w' = true).
 Proof.
   intros F K. apply reversible. unfold installed. fold (four_present w). rewrite F. cbn [andb].
   unfold KnownClass_C17_agent_not_runnable in K. rewrite F in K. cbn [andb] in K.
@@ -688,11 +698,11 @@ Qed.
 (* the same after any history: whatever commands ran before, once a version is installed the
    triple backup; install; restore reinstates it *)
 Lemma reversible_after_history cmds d w :
-  installed runnable (run runnable cmds w) = true ->
-  let w0 := run runnable cmds w in
-  let w' := run runnable (cmds ++ [Backup; Install; Restore d]) w in
+  installed runnable (run runnable fails cmds w) = true ->
+  let w0 := run runnable fails cmds w in
+  let w' := run runnable fails (cmds ++ [Backup; Install; Restore d]) w in
   (forall l, In l sys_locs -> fs_get l (wfs w') = fs_get l (wfs w0)) /\
-  wrunning w' = true /\ wenabled w' = true.
+  ((forall v l, fails v l = false) -> wrunning w' = true /\ wenabled w' = true).
 Proof.
   intros I w0 w'. subst w' w0. unfold run in *. rewrite fold_left_app. cbn [fold_left].
   exact (reversible d _ I).
@@ -700,7 +710,7 @@ Qed.
 
 (* the package beside the tool is never modified, by any history *)
 Lemma package_untouched cmds w l :
-  In l pkg_locs -> fs_get l (wfs (run runnable cmds w)) = fs_get l (wfs w).
+  In l pkg_locs -> fs_get l (wfs (run runnable fails cmds w)) = fs_get l (wfs w).
 Proof.
   intros H. apply run_frame. destruct H as [<-|[<-|[<-|[<-|[]]]]]; reflexivity.
 Qed.
@@ -711,21 +721,21 @@ End WithOracle.
 (* further facts used by Props/C17.v                                                     *)
 (* ------------------------------------------------------------------------------------ *)
 Section More.
-Context (runnable : file -> bool).
+Context (runnable : file -> bool) (fails : verb -> list event -> bool).
 
 (* install / restore / uninstall begin with `systemctl stop`: whatever they log starts with it *)
 Lemma starts_with_stop ops w0 :
   wlog w0 = [] ->
-  exists es, wlog (run_ops runnable (OCall VStop :: ops) w0) = ECall VStop :: es.
+  exists es, wlog (run_ops runnable fails (OCall VStop :: ops) w0) = ECall VStop :: es.
 Proof.
   intros E. cbn [run_ops step_op].
-  destruct (run_ops_log runnable ops (Setup.call VStop w0)) as [es H].
+  destruct (run_ops_log runnable fails ops (Setup.call fails VStop w0)) as [es H].
   exists es. rewrite H, wlog_call, E. reflexivity.
 Qed.
 
 Lemma stop_first c w :
   match c with Install | Restore _ | Uninstall _ => True | _ => False end ->
-  step_events runnable c w = [] \/ exists es, step_events runnable c w = ECall VStop :: es.
+  step_events runnable fails c w = [] \/ exists es, step_events runnable fails c w = ECall VStop :: es.
 Proof.
   intros H. unfold step_events, exec. destruct c as [| |d|m| |]; try contradiction; cbn [script].
   - right. apply starts_with_stop. reflexivity.
@@ -735,19 +745,19 @@ Qed.
 
 (* index form of stop-before-replace for one command (service possibly running before) *)
 Lemma stop_before_replace c w pre ev post :
-  step_events runnable c w = pre ++ ev :: post -> sys_mutation ev = true ->
+  step_events runnable fails c w = pre ++ ev :: post -> sys_mutation ev = true ->
   exists p1 p2, pre = p1 ++ ECall VStop :: p2 /\ ~ In (ECall VStart) p2.
 Proof.
-  intros E M. exact (log_safe_stop_before _ pre ev post (step_events_safe runnable c w true) E M).
+  intros E M. exact (log_safe_stop_before _ pre ev post (step_events_safe runnable fails c w true) E M).
 Qed.
 
 (* no system file is touched after `systemctl start` within a command *)
 Lemma no_replace_after_start c w pre mid ev post2 :
-  step_events runnable c w = pre ++ ECall VStart :: mid ++ ev :: post2 ->
+  step_events runnable fails c w = pre ++ ECall VStart :: mid ++ ev :: post2 ->
   sys_mutation ev = true -> In (ECall VStop) mid.
 Proof.
   intros E M.
-  pose proof (step_events_safe runnable c w true) as S. rewrite E, log_safe_app in S.
+  pose proof (step_events_safe runnable fails c w true) as S. rewrite E, log_safe_app in S.
   apply andb_true_iff in S. destruct S as [_ S]. cbn [log_safe] in S.
   pose proof (log_safe_at true _ mid ev post2 S eq_refl M) as F.
   destruct (log_state_false_from_true mid F) as [p1 [p2 [-> _]]].
@@ -758,22 +768,23 @@ Qed.
    service stays stopped: the tool panics after `systemctl stop`) *)
 Lemma install_bad_package w :
   version_ok runnable PkgExe w = false ->
-  wfs (exec runnable Install w) = wfs w /\ wrunning (exec runnable Install w) = false /\
-  exit_code runnable Install w = 101.
+  wfs (exec runnable fails Install w) = wfs w /\ exit_code runnable fails Install w = 101 /\
+  (fails VStop (wlog w) = false -> wrunning (exec runnable fails Install w) = false).
 Proof.
   intros H. unfold exit_code, exec. cbn [script install_ops app run_ops rc_ops step_op].
-  assert (E : version_ok runnable PkgExe (Setup.call VStop (banner Install w)) = false).
+  assert (E : version_ok runnable PkgExe (Setup.call fails VStop (banner Install w)) = false).
   { unfold version_ok in *. rewrite wfs_call, wfs_banner. exact H. }
-  rewrite E. repeat split; reflexivity.
+  rewrite E. repeat split; try (rewrite wfs_call, wfs_banner; reflexivity).
+  intros H0. rewrite wrunning_call, wlog_banner, H0. reflexivity.
 Qed.
 
 (* UNINSTALL package: the four installed files are gone; service mode: only the unit file *)
 Lemma uninstall_package_removes w l :
-  In l sys_locs -> fs_get l (wfs (exec runnable (Uninstall UPackage) w)) = None.
+  In l sys_locs -> fs_get l (wfs (exec runnable fails (Uninstall UPackage) w)) = None.
 Proof. intros [<-|[<-|[<-|[<-|[]]]]]; rewrite uninstall_get; reflexivity. Qed.
 
 Lemma uninstall_service_keeps w l :
-  l <> SysUnit -> fs_get l (wfs (exec runnable (Uninstall UService) w)) = fs_get l (wfs w).
+  l <> SysUnit -> fs_get l (wfs (exec runnable fails (Uninstall UService) w)) = fs_get l (wfs w).
 Proof. intros H. rewrite uninstall_get. destruct l; try reflexivity. contradiction. Qed.
 
 End More.
@@ -796,7 +807,7 @@ Definition ex_not_runnable : world :=
   mk_world ([(SysExe, (420, standin_magic ++ [49; 10])); (SysCfg, (384, [1; 2])); (SysEbpf, (420, [3])); (SysUnit, (420, [4]))] ++ ex_pkg) true true.
 
 Definition triple (runnable : file -> bool) (d : bool) (w : world) : world :=
-  exec runnable (Restore d) (exec runnable Install (exec runnable Backup w)).
+  exec runnable never_fails (Restore d) (exec runnable never_fails Install (exec runnable never_fails Backup w)).
 
 Lemma reversible_needs_all_files :
   exists w, version_ok standin_runnable SysExe w = true /\ installed standin_runnable w = false /\
@@ -812,13 +823,29 @@ Proof. exists ex_not_runnable. vm_compute. repeat split; discriminate. Qed.
 Lemma nonvacuous_examples :
   installed standin_runnable ex_installed = true /\ package_complete standin_runnable ex_installed = true /\
   (forall l, In l sys_locs -> fs_get l (wfs (triple standin_runnable true ex_installed)) = fs_get l (wfs ex_installed)) /\
-  fs_get SysCfg (wfs (exec standin_runnable Install (exec standin_runnable Backup ex_installed))) = Some (420, [5]) /\
-  backup_exists (exec standin_runnable Backup ex_installed) = true /\
+  fs_get SysCfg (wfs (exec standin_runnable never_fails Install (exec standin_runnable never_fails Backup ex_installed))) = Some (420, [5]) /\
+  backup_exists (exec standin_runnable never_fails Backup ex_installed) = true /\
   backup_exists (triple standin_runnable true ex_installed) = false /\
   backup_exists (triple standin_runnable false ex_installed) = true /\
-  step_events standin_runnable Install ex_installed =
+  step_events standin_runnable never_fails Install ex_installed =
     [ECall VStop; EWrite SysExe; EWrite SysCfg; EWrite SysEbpf; EWrite SysUnit;
      ECall VUnmask; ECall VDaemonReload; ECall VEnable; ECall VStart].
+Proof.
+  repeat split; try (vm_compute; reflexivity).
+  intros l [<-|[<-|[<-|[<-|[]]]]]; vm_compute; reflexivity.
+Qed.
+
+(* faults are not vacuous: with `systemctl stop` failing at every call the uninstall still removes
+   the four files (and the service is still reported running, since nothing stopped it) *)
+Definition stop_always_fails (v : verb) (l : list event) : bool := match v with VStop => true | _ => false end.
+Lemma fault_example :
+  (forall l, In l sys_locs ->
+     fs_get l (wfs (exec standin_runnable stop_always_fails (Uninstall UPackage) ex_installed)) = None) /\
+  wrunning (exec standin_runnable stop_always_fails (Uninstall UPackage) ex_installed) = true /\
+  exit_code standin_runnable stop_always_fails (Uninstall UPackage) ex_installed = 0 /\
+  step_events standin_runnable (fails_of [false; true]) (Uninstall UService) ex_installed =
+    [ECall VStop; ECall VDisable; ERemove SysUnit; ECall VDaemonReload] /\
+  wenabled (exec standin_runnable (fails_of [false; true]) (Uninstall UService) (clear_log ex_installed)) = true.
 Proof.
   repeat split; try (vm_compute; reflexivity).
   intros l [<-|[<-|[<-|[<-|[]]]]]; vm_compute; reflexivity.
